@@ -73,16 +73,47 @@ def observe(cs):
     return res
 
 
-def gen_text(rng):
-    n = rng.choice([1, 1, 1, 2, 2, 3])
-    return [" ".join(rng.choice(WORDS) for _ in range(rng.randint(1, 4))) for _ in range(n)]
+ATOMS = ["&lt;", "&gt;", "&amp;", "&nbsp;", "&#60;", "&#x3c;", "&amp;lt;", "&amp;amp;", "&lrm;", "&bogus;", "&", "<", ">",
+         '"', "'", "-->", "a --> b", "<i>", "</i>", "<i>x</i>", "<b>", "<u>t</u>", "</p>", "<p>", "<br/>", "<br>", "</span>",
+         "<span>", "<c.x>y</c>", "<v Bob>", "<00:01.000>", "<!--", "]]>", "x<y", "a<b>c", "1 < 2 > 0", "R&D", "42", "50",
+         "25", "23.976", "1", "{1}{2}", "{0}{0}", "{", "}", "|", "a|b", "00:00:01,000 --> 00:00:02,000", "NOTE", "STYLE",
+         "WEBVTT", "</tt>", "<sami>", "é", "中", "\U0001F600", "a\xa0b", ";", "x;>", "a;", "#", "\\", "/", "-", "--",
+         "- hi", "[music]", "100%", "it's"]
+
+
+def norm_line(l):
+    return re.sub(r"\s+", " ", l).strip()
+
+
+def gen_text(rng, no_pipe, counter):
+    """1-3 lines of words and adversarial atoms, with leading / trailing / multiple blanks; every line visible.
+    '|' is MicroDVD's line separator: excluded (counted) exactly when the chain has a MicroDVD hop."""
+    lines = []
+    for _ in range(rng.choice([1, 1, 1, 2, 2, 3])):
+        while True:
+            parts = [rng.choice(ATOMS) if rng.random() < 0.55 else rng.choice(WORDS) for _ in range(rng.randint(1, 4))]
+            l = rng.choice([" ", " ", " ", "  ", ""]).join(parts)
+            if rng.random() < 0.15:
+                l = rng.choice([" ", "  ", "\t"]) + l
+            if rng.random() < 0.15:
+                l = l + rng.choice([" ", "  "])
+            if no_pipe and "|" in l:
+                counter["text_pipe_excluded_for_microdvd"] = counter.get("text_pipe_excluded_for_microdvd", 0) + 1
+                l = l.replace("|", "/")
+            if norm_line(l):
+                break
+        lines.append(l)
+    return lines
 
 
 GRID = [0, 1, 999, 1000, 1001, 39999, 40000, 40001, 999999, 10**6, 8039999, 8040000, 8119999, 8120000, 59999999,
         60 * 10**6, 3599999999, 3600 * 10**6, 36000 * 10**6 - 1, 5004999, 5005000]
 
 
-def gen_cues(rng, unit):
+def gen_cues(rng, unit, short_ok):
+    """sorted non-overlapping cues. short_ok (no SAMI on the chain): a cue may be shorter than the unit, even inside one
+    unit (it floors to a zero-length cue that must be kept) - neighbours start in different units and, with MicroDVD,
+    no cue lies inside frame 0.  Otherwise every cue is at least one unit long."""
     n = rng.choice([1, 2, 2, 3, 4, 5])
     t = rng.choice([0, 0, 1, 999, rng.randrange(10**7), rng.randrange(10**9), rng.randrange(HI // 2)])
     cues = []
@@ -91,15 +122,25 @@ def gen_cues(rng, unit):
             g = rng.choice(GRID)
             if g >= t:
                 t = g
-        d = rng.choice([unit, unit + 1, 2 * unit - 1, 2 * unit, 999999, 10**6, 2500000, rng.randrange(unit, 10**7)])
-        d = max(d, unit)
-        s, e = t, t + d
+        if short_ok and rng.random() < 0.35:
+            d = rng.choice([0, 1, 999, 30000, 39999, unit - 1, rng.randrange(0, unit)])
+            if rng.random() < 0.5:
+                t = t // unit * unit + rng.choice([0, 0, 1, unit // 4])   # well inside one unit
+        else:
+            d = max(unit, rng.choice([unit, unit + 1, 2 * unit - 1, 2 * unit, 999999, 10**6, 2500000,
+                                      rng.randrange(unit, 10**7)]))
+        s = t
+        if cues:      # not before the previous end, and in a later unit than the previous start
+            s = max(s, cues[-1][1], (cues[-1][0] // unit + 1) * unit)
+        e = s + d
+        if unit == 40000 and e < 40000:
+            s, e = s + 40000, e + 40000          # frame 0 is the recorded finding (separate stream)
         if e > HI:
             break
         cues.append((s, e))
         t = e + (0 if rng.random() < 0.35 else rng.choice([1, 999, 1000, unit, 123456, rng.randrange(1, 10**7)]))
     if not cues:
-        cues = [(0, max(unit, 1000))]
+        cues = [(40000, 40000 + max(unit, 1000))]
     return cues
 
 
@@ -154,8 +195,12 @@ def run(ctx):
         nl = rng.choice([2, 3]) if multi else 1
         langs = []
         for _ in range(nl):
-            cues = gen_cues(rng, unit)
-            langs.append((cues, [gen_text(rng) for _ in cues]))
+            cues = gen_cues(rng, unit, 3 not in chain)
+            langs.append((cues, [gen_text(rng, 4 in chain, dist) for _ in cues]))
+            if any(e - s0 < unit for (s0, e) in cues):
+                dist["sets_with_a_cue_shorter_than_the_unit"] = dist.get("sets_with_a_cue_shorter_than_the_unit", 0) + 1
+            if any(s0 // unit == e // unit for (s0, e) in cues):
+                dist["sets_with_a_cue_inside_one_unit"] = dist.get("sets_with_a_cue_inside_one_unit", 0) + 1
         cs = build(langs)
         t1, cs1 = run_chain(chain, cs)
         t2, cs2 = run_chain(chain, cs1) if cs1 is not None else ([], None)
@@ -225,11 +270,16 @@ def run(ctx):
     dist["pairs"] = len(pairs)
     dist["sets_per_pair"] = per_pair
     res["rule"] = ("all 25 ordered format pairs x %d caption sets and sampled chains of length 3-6, two passes; sets of "
-                   "1-5 sorted non-overlapping cues (1-3 languages when the chain stays within DFXP/SAMI) with "
-                   "durations >= the chain's coarsest unit (1 ms, 40 ms with MicroDVD) drawn from {unit, unit+1, "
-                   "2unit-1, ...}, touching cues, starts on ms / frame boundaries +-1 (e.g. 8039999, 8040000), below "
-                   "23 h; texts of 1-3 lines of plain words. Non-trivial: every distinct (chain, cue list) in the "
-                   "domain." % per_pair)
+                   "1-5 sorted non-overlapping cues (1-3 languages when the chain stays within DFXP/SAMI); with SAMI on "
+                   "the chain every cue is at least one unit long (1 ms, 40 ms with MicroDVD), otherwise cues may be "
+                   "shorter than the unit or lie inside one unit (e.g. {100}{100}: kept as a zero-length cue) while "
+                   "neighbours start in different units and no cue lies inside MicroDVD frame 0; starts on ms / frame "
+                   "boundaries +-1 (e.g. 8039999, 8040000), below 23 h; texts of 1-3 lines mixing plain words with "
+                   "adversarial atoms: literal entity spellings (&lt; &gt; &amp; &nbsp; &#60; &amp;lt;), bare & < >, "
+                   "quotes, '-->', markup-looking strings (<i>, </p>, <br/>, <v Bob>), digits-only lines (42, 50, 25), "
+                   "braces, timing-line look-alikes, leading/trailing/multiple blanks, non-ASCII; '|' is replaced "
+                   "(counted) exactly when the chain has a MicroDVD hop. Non-trivial: every distinct (chain, cue list) "
+                   "in the domain." % per_pair)
     res["clauses"] = {
         "theorem": ["projection algebra: pi_F idempotent, two hops = coarser resolution (order irrelevant), every chain = "
                     "closed form (coarsest unit, SAMI 4 s tail), chain twice = once",
@@ -238,8 +288,9 @@ def run(ctx):
                     "domain; a chain of model hops is the closed form and satisfies the oracle",
                     "string level, MicroDVD: reader model o writer model (whole documents incl. text lines) = frames "
                     "floored, text unchanged (C08_mdvd_roundtrip_string)"],
-        "correspondence_only": ["text survives every hop (whitespace-normalised lines; texts restricted to plain words: "
-                                "no consecutive breaks, no entity-looking text, no wrapped text, no '|')",
+        "correspondence_only": ["text survives every hop and the second pass (whitespace-normalised lines, adversarial "
+                                "texts; the projection on text is the identity up to whitespace; only '|' is excluded, "
+                                "for MicroDVD hops)",
                                 "document level of every real writer / reader pair (the model hop is at token / cue-list "
                                 "level)", "several languages through DFXP / SAMI"]}
     res["samples"] = [{"chain": [FMT[f] for f in work[0][0]], "cues": work[0][3], "text": work[0][4]}]
@@ -317,6 +368,7 @@ def final_times(trace, li, n):
 
 
 def text_mismatch(trace, li, texts):
+    texts = [[norm_line(l) for l in lines] for lines in texts]
     for k, o in enumerate(trace):
         if isinstance(o, Err):
             return (k, "an exception")
